@@ -170,6 +170,7 @@ def run_group(pid, groups, tier, only=None, known_ids=()):
     t0 = time.time()
     res = {"status": "ok", "reason": "", "obligations": [], "failures": [], "trusted": [], "bounded": [], "harness_times": [], "cmd": ""}
     hs = []
+    scen = []
     for g in groups:
         for h in parse_harnesses(g["unit"]):
             if pid not in h["props"]:
@@ -182,8 +183,11 @@ def run_group(pid, groups, tier, only=None, known_ids=()):
                 continue
             h["crate"] = g.get("crate", "elvis-core")
             h["features"] = h["features"] or g.get("features", "")
-            hs.append(h)
-    if not hs:
+            if h["kind"] == "scenario":
+                scen.append(h)
+            else:
+                hs.append(h)
+    if not hs and not scen:
         return res
     os.makedirs(os.path.join(VERIF, "build"), exist_ok=True)
     try:
@@ -192,6 +196,25 @@ def run_group(pid, groups, tier, only=None, known_ids=()):
             buckets = {}
             for h in hs:
                 buckets.setdefault((h["crate"], h["features"]), []).append(h)
+            # kind=scenario: BOUNDED scenarios for clauses no contract expresses (two-endpoint composition, bounded liveness);
+            # plain tests on the repository's code (its own toolchain), listed under `bounded`, never counted as proved
+            for h in scen:
+                ts = time.time()
+                failed, out = replay_on_real_code(sc, h, "", run_timeout=300)
+                ob = {"id": h["id"], "props": h["props"], "kind": "bounded-scenario", "discharged": not failed,
+                      "text": "scenario %s (bounded: %s)" % (h["harness"], h["bound"])}
+                if "replay timed out" in out or "error: could not compile" in out or "error[E" in out:
+                    res["status"] = "undecided"
+                    res["reason"] = "scenario %s could not be built / run: %s" % (h["harness"], out[-300:])
+                    continue
+                res["obligations"].append(ob)
+                res["bounded"].append({"harness": h["harness"], "bound": h["bound"]})
+                res["harness_times"].append({"harness": h["harness"], "s": round(time.time() - ts, 1), "status": "failed" if failed else "ok"})
+                res["cmd"] = (res["cmd"] + " ; " if res["cmd"] else "") + "RUSTFLAGS='--cfg vx_replay' cargo test --offline --lib -p %s vx_kani_%s::%s" % (h["crate"], h["unit"], h["harness"])
+                if failed:
+                    res["failures"].append({"obligation": h["id"], "props": h["props"], "message": "bounded scenario fails on the real code: " + " ".join(l.strip() for l in out.split("\n") if "panicked at" in l or "assertion" in l or "(seed" in l)[:400],
+                                            "rendered": out[-3000:], "repo_loc": None, "clause": ob["text"], "harness": h, "replayed": True,
+                                            "cex": [{"check": "scenario", "description": "bounded scenario %s" % h["harness"], "hex": "", "replay_output": out[-3000:], "replay_failed_on_real_code": True}]})
             for (crate, feats), bh in buckets.items():
                 names = [h["harness"] for h in bh]
                 extra = ["-Z", "function-contracts", "-Z", "stubbing", "--output-format=terse", "-j", "8"]
@@ -272,7 +295,7 @@ def concrete_playback(sc, h, timeout=900):
     return tests
 
 
-def replay_on_real_code(sc, h, hexvals, timeout=1800):
+def replay_on_real_code(sc, h, hexvals, timeout=1800, run_timeout=None):
     """run the same harness body as a plain #[test] with the repository's own
     toolchain; True when it fails (= violation confirmed on the real code)"""
     env = dict(os.environ)
@@ -283,6 +306,13 @@ def replay_on_real_code(sc, h, hexvals, timeout=1800):
     cmd = ["cargo", "test", "--offline", "--lib", "-p", h["crate"]]
     if h.get("features"):
         cmd += ["--features", h["features"]]
+    if run_timeout:
+        # build first (long timeout), so that run_timeout bounds the test itself
+        try:
+            subprocess.run(cmd + ["--no-run"], cwd=os.path.join(sc.dir, "sim"), env=env, capture_output=True, text=True, timeout=timeout)
+        except subprocess.TimeoutExpired:
+            return False, "replay timed out"
+        timeout = run_timeout
     cmd += ["vx_kani_%s::%s" % (h["unit"], h["harness"]), "--", "--nocapture", "--test-threads", "1"]
     try:
         p = subprocess.run(cmd, cwd=os.path.join(sc.dir, "sim"), env=env, capture_output=True, text=True, timeout=timeout)
